@@ -20,6 +20,12 @@ Quantifier (property text): handler x message index of the exchange x fault kind
    tamper     - one item has a bit changed (right length, still well-formed): authenticity, C06
    disconnect - the device closes the connection instead of replying (clean EOF and reset)
    refused    - the connection cannot be opened at all
+each crossed with what was STORED BEFORE in service and settings: the valid credentials (two different
+strings), nothing, only one of the two, valid credentials of another kind, and strings that do not
+parse (three / five fields, an empty field, odd hex, garbage, empty string, another protocol's format);
+after a failed attempt both stores must hold byte for byte what they held before.
+Every begin()/finish() is bounded in VIRTUAL time: a call that has not returned after 120 virtual
+seconds with nothing else scheduled is reported as never-returns-on-silent-device:<step>.
 plus the fault-free run, API misuse (finish() without pin / without begin()), cancellation of
 begin()/finish() while it waits for each reply AND after k turns of the event loop for every k until
 the call completes; each with credentials stored before (service and settings, different values) and
@@ -68,6 +74,32 @@ OLD_SERVICE = {               # previously stored credentials (service object)
     "mrp": None, "companion": None, "airplay_hap": None, "airplay_legacy": None, "raop": None, "dmap": "0xAAAABBBBCCCCDDDD",
 }
 HANDLERS = ["mrp", "companion", "airplay_hap", "airplay_legacy", "raop", "dmap"]
+
+STORED_VARIANTS = ["other-kind", "three-field", "five-field", "empty-field", "truncated-odd", "garbage", "empty-string", "old-format"]
+
+
+def stored_variant(handler, name):
+    """Previously stored credentials that are NOT the valid ones of old_credentials(): valid ones of
+    another kind, and strings that do not parse (as a user's storage file may well contain).  The same
+    string is put into the service and into the settings; the oracle compares byte for byte."""
+    from pyatv.auth.server_auth import CLIENT_CREDENTIALS
+    legacy = "0011223344556677:" + "AB" * 32
+    valid = legacy if handler in ("airplay_legacy", "raop") else CLIENT_CREDENTIALS
+    parts = CLIENT_CREDENTIALS.split(":")
+    v = {
+        "other-kind": CLIENT_CREDENTIALS if handler in ("airplay_legacy", "raop") else legacy,
+        "three-field": ":".join(parts[:3]),
+        "five-field": CLIENT_CREDENTIALS + ":00",
+        "empty-field": ":".join(parts[:3]) + ":",
+        "truncated-odd": valid[:-7],
+        "garbage": "not credentials at all \u00e4",
+        "empty-string": "",
+        "old-format": "0x0123456789ABCDEF",
+    }[name]
+    if handler == "dmap" and name == "old-format":
+        v = CLIENT_CREDENTIALS
+    return v, v
+
 
 SETTINGS_ATTR = {"mrp": "mrp", "companion": "companion", "airplay_hap": "airplay", "airplay_legacy": "airplay",
                  "raop": "raop", "raop_hap": "raop", "dmap": "dmap"}
@@ -745,6 +777,9 @@ def exc_name(ex):
     return type(ex).__name__
 
 
+WATCHDOG = 120.0
+
+
 async def call(coro_factory, plan, cancel, cancel_after=None):
     """Run one API call; in cancel mode cancel it once the device is holding the chosen reply; with
     cancel_after=k cancel it after k turns of the event loop (wherever it happens to be)."""
@@ -765,6 +800,18 @@ async def call(coro_factory, plan, cancel, cancel_after=None):
             for _ in range(3):
                 await asyncio.sleep(0)     # let the request reach the point where it waits
             task.cancel()
+    # bounded in VIRTUAL time: the library's own timeouts are 5-10 s per request; a call that has not
+    # returned after WATCHDOG virtual seconds (nothing else scheduled - the loop jumps straight to this
+    # timer) never will
+    if not task.done():
+        await asyncio.wait({task}, timeout=WATCHDOG)
+    if not task.done():
+        task.cancel()
+        try:
+            await task
+        except BaseException:  # noqa
+            pass
+        return "never-returned", None
     try:
         await task
         return "ok", None
@@ -783,6 +830,8 @@ async def scenario(spec):
     old_service, old_settings = old_credentials(handler)
     if spec.get("fresh"):             # first-time pairing: nothing stored anywhere
         old_service, old_settings = None, None
+    if spec.get("old"):               # what was stored before: see STORED_VARIANTS
+        old_service, old_settings = stored_variant(handler, spec["old"])
     if spec.get("stored") == "settings-only":
         old_service = None
     elif spec.get("stored") == "service-only":
@@ -932,8 +981,8 @@ def judge(spec, obs):
     success = obs["begin"] == "ok" and obs["finish"] == "ok"
     before, after = obs["before"], obs["after"]
     wrote = after["service"] != before["service"] or after["settings"] != before["settings"]
-    where = "%s %s%s at %s" % (handler, spec.get("kind") or spec.get("misuse") or "fault-free", ("/" + str(spec.get("sub"))) if spec.get("sub") else "",
-                               obs.get("hit_name") or "-")
+    where = "%s %s%s at %s%s" % (handler, spec.get("kind") or spec.get("misuse") or "fault-free", ("/" + str(spec.get("sub"))) if spec.get("sub") else "",
+                                 obs.get("hit_name") or "-", (" (stored before: %s)" % spec["old"]) if spec.get("old") else "")
     ab = obs["after_begin"]
     if ab["service"] != before["service"] or ab["settings"] != before["settings"]:
         out.append(("C08:%s:credentials-written-on-failure" % hk, "%s: begin() alone changed the stored credentials: %s -> %s" % (where, before, ab)))
@@ -941,6 +990,13 @@ def judge(spec, obs):
         out.append(("C08:%s:has-paired-on-failure" % hk, "%s: has_paired is True after begin() alone" % where))
     if obs.get("other_protocols_changed"):
         out.append(("C08:%s:service-and-settings-disagree" % hk, "%s: credentials of OTHER protocols in the settings were changed: %s" % (where, obs["other_protocols_changed"])))
+    if "never-returned" in (obs["begin"], obs["finish"]):
+        which = "begin()" if obs["begin"] == "never-returned" else "finish()"
+        out.append(("C08:%s:never-returns-on-silent-device:%s" % (hk, obs.get("hit_name") or spec.get("kind") or "fault-free"),
+                    "%s: %s had not returned after %d virtual seconds with nothing else scheduled (it must raise a connection or pairing error)" % (where, which, WATCHDOG)))
+        if wrote or after["has_paired"]:
+            out.append(("C08:%s:credentials-written-on-failure" % hk, "%s: %s never returned, yet credentials/has_paired changed: %s -> %s" % (where, which, before, after)))
+        return out
     if cancelled:
         if wrote or after["has_paired"]:
             at = ("while waiting for %s" % obs.get("hit_name")) if spec.get("cancel") else ("%s() after %s turns of the event loop" % (spec.get("phase"), spec.get("cancel_after")))
@@ -953,7 +1009,9 @@ def judge(spec, obs):
             out.append(("C08:%s:has-paired-on-failure" % hk, "%s: begin=%s finish=%s but has_paired is True" % (where, obs["begin"], obs["finish"])))
         if not obs["exc_ok"]:
             out.append(("C08:%s:wrong-exception" % hk, "%s: begin=%s finish=%s is neither a pairing nor a connection error" % (where, obs["begin"], obs["finish"])))
-        if not spec.get("kind") and not spec.get("misuse"):
+        if not spec.get("kind") and not spec.get("misuse") and not spec.get("old"):
+            # (with unusual stored credentials - spec['old'] - a handler may refuse to pair; it must then
+            #  refuse consistently, which is what has just been checked)
             out.append(("C08:%s:success-not-recorded" % hk, "fault-free exchange failed: begin=%s (%s) finish=%s (%s)" % (obs["begin"], obs["begin_msg"], obs["finish"], obs["finish_msg"])))
         return out
     if success:
@@ -1152,6 +1210,10 @@ async def scenario_dmap(spec):
 
     loop = asyncio.get_running_loop()
     old_service, old_settings = old_credentials("dmap")
+    if spec.get("old") == "none":
+        old_service, old_settings = None, None
+    elif spec.get("old"):
+        old_service, old_settings = stored_variant("dmap", spec["old"])
     service = MutableService("fake-id", Protocol.DMAP, 3689, {}, credentials=old_service)
     settings = Settings()
     settings.protocols.dmap.credentials = old_settings
@@ -1314,6 +1376,10 @@ def dmap_specs(rng, thorough):
         for guid in ("0xFFFFFFFFFFFFFFFF", "0x8000000000000000", "0x12", "0x10000000000000000", "0x0123456789ABCDEF0123", "0xNOTHEXNOTHEXNOTH", "0x"):
             specs.append({"handler": "dmap", "pin": pin, "code": "correct", "guid": guid})
             specs.append({"handler": "dmap", "pin": pin, "code": "correct", "guid": guid, "query": "no-servicename"})
+    # what was stored before x accepted / rejected / unanswerable request
+    for old in ["none"] + STORED_VARIANTS:
+        for sp in ({"code": "correct"}, {"code": "other:4321"}, {"code": "correct", "query": "no-servicename"}, {"code": "correct", "guid": "0x10000000000000000"}):
+            specs.append(dict({"handler": "dmap", "pin": 1234, "old": old}, **sp))
     # a guid from the generator
     specs.append({"handler": "dmap", "pin": 1234, "code": "correct", "guid": "0x" + "%016X" % rng.getrandbits(64)})
     specs.append({"handler": "dmap", "pin": 1234, "code": "other:4321", "guid": "0x" + "%016X" % rng.getrandbits(64)})
@@ -1422,7 +1488,10 @@ def judge_multi(spec, obs):
         where = "%s attempt %d of [%s] (%s%s at %s)" % (handler, k + 1, seq, att.get("kind") or ("cancel" if att.get("cancel") else "fault-free"),
                                                        ("/" + str(att["sub"])) if att.get("sub") else "", a.get("hit_name") or "-")
         before, after = a["before"], a["after"]
-        failed = a["begin"].startswith("raised") or a["finish"].startswith("raised") or "cancelled" in (a["begin"], a["finish"])
+        failed = a["begin"].startswith("raised") or a["finish"].startswith("raised") or "cancelled" in (a["begin"], a["finish"]) or "never-returned" in (a["begin"], a["finish"])
+        if "never-returned" in (a["begin"], a["finish"]):
+            out.append(("C08:%s:never-returns-on-silent-device:%s" % (hk, a.get("hit_name") or att.get("kind") or "fault-free"),
+                        "%s: begin=%s finish=%s after %d virtual seconds with nothing else scheduled" % (where, a["begin"], a["finish"], WATCHDOG)))
         wrote = after["service"] != before["service"] or after["settings"] != before["settings"]
         ab = a["after_begin"]
         if ab["service"] != before["service"] or ab["settings"] != before["settings"]:
@@ -1742,6 +1811,15 @@ def run_part(ctx):
                     if base is not None and base["finish"] == "ok":
                         specs += matrix(h, base["replies"], ctx.rng, False, extra={"stored": "service-only"}, light=True)
             # (a fault-free run that fails is reported by the oracle as success-not-recorded)
+        # 2b. the dimension "what was stored before": valid credentials of another kind and strings that
+        #     do not parse, in service AND settings, crossed with the failure placements.  Whether a handler
+        #     can pair at all from such a state is its business; after a FAILED attempt both stores must
+        #     hold byte for byte what they held before.
+        vspecs = [{"handler": h, "old": v} for h in handlers for v in STORED_VARIANTS]
+        vbases = many(vspecs)
+        for sp, vb in zip(vspecs, vbases):
+            if vb is not None:
+                specs += matrix(sp["handler"], vb["replies"], ctx.rng, False, extra={"old": sp["old"]}, light=True)
         if ctx.thorough:
             # fresh key material / salts per run (the quick tier uses one fixed stream, rseed 1)
             for sp in specs:
@@ -1802,8 +1880,8 @@ def model_correspondence(ctx, runs):
     cc = common.CoqCases(ctx, "From PV Require Import Common.Cases C08.DynModel.", per_file=300)
     cc.group("dyn", "check_case", "obs")
     for spec, obs in runs:
-        if spec.get("misuse") or "cancel_after" in spec:
-            continue
+        if spec.get("misuse") or "cancel_after" in spec or spec.get("old"):
+            continue          # (with unusual stored credentials a handler may refuse to pair: not in the table)
         h = spec["handler"]
         cands = [v for (hh, _), v in shape.items() if hh == h]
         if not cands:
